@@ -24,7 +24,7 @@ ID = "C02"
 RULE = ("renderable objects of every family (plus feature-rich statements: UPDATE..JOIN, FOR UPDATE OF several names, star tables, CTE, set "
         "operations, subqueries, upserts, RETURNING) x generated histories of render operations {str, repr, get_sql under six contexts inline / fresh "
         "parameterizer / caller-owned parameterizer, get_parameterized_sql, hash, ==, set insertion}; batches re-rendered in child interpreters under "
-        "PYTHONHASHSEED 0..3(7); 8-thread stress; re-entrancy probe. Non-trivial = statement with a join, CTE, set operation, subquery, star, FOR UPDATE "
+        "PYTHONHASHSEED 0..3(7) and in fresh interpreters that render the six class contexts in three other orders (render-history independence); 8-thread stress; re-entrancy probe. Non-trivial = statement with a join, CTE, set operation, subquery, star, FOR UPDATE "
         "OF or upsert and a history with >= 2 contexts and a repeated operation; distinct = distinct (object, history).")
 ASSUMPTIONS = [
     "thread interleavings are sampled (stress) and owned only at term granularity (re-entrancy probe); bytecode-level schedules are not enumerated",
